@@ -601,13 +601,50 @@ func famPlan(tr *Trace, scratch string, seed int64, tier string, workers int) M 
 		}
 	}
 	parallel(len(cases), workers, func(i int) { runPlanCase(tr, cases[i]) })
+	// (cwd) sources given relative to the WORKING DIRECTORY itself (`src: "*"`, `".*"`, `"."`), hidden names among the
+	// matches: the process changes into the tree, so these run one at a time after everything else
+	nCwd := 0
+	{
+		mkf := func(p, body string) Node {
+			b := []byte(body)
+			return Node{P: p, Kind: "file", Mode: 0o644, Mt: 1500000000, Size: len(b), data: b, Cid: cidOf(b)}
+		}
+		nodes := []Node{mkf(".env", "A=1\n"), {P: ".config", Kind: "dir", Mode: 0o755, Mt: 1500000000}, mkf(".config/settings", "s\n"), mkf("plain.txt", "p\n"),
+			{P: "sub", Kind: "dir", Mode: 0o755, Mt: 1500000000}, mkf("sub/.hidden", "h\n"), mkf("sub/seen", "v\n")}
+		rt := filepath.Join(scratch, "plan-cwd")
+		Materialise(rt, nodes)
+		treeM["CWD"] = nodesM(nodes)
+		wd, werr := os.Getwd()
+		if werr == nil && os.Chdir(rt) == nil {
+			var cw []*PlanCase
+			for _, pk := range pks {
+				// (not ".*" and ".": the glob library lets both match the working directory itself - the whole tree -, which
+				// the tree model has no node for)
+				for _, pat := range []string{"*", ".env", ".config", "sub", "sub/*", "./sub", "./.env", "*/.hidden", ".config/*"} {
+					for _, dst := range []string{"/opt/cwdapp", "/opt/cwdapp/"} {
+						for _, ty := range []string{"file", "config"} {
+							id++
+							cw = append(cw, &PlanCase{ID: id, Pk: pk, Umask: 0, NoGlob: false, Pmt: 1600000000, TreeID: "CWD", TreeNodes: treeM["CWD"], Root: rt,
+								Entries: []Entry{{Type: ty, Src: pat, Dst: dst, Abs: true}}, Family: "cwd"})
+						}
+					}
+				}
+			}
+			for _, pc := range cw {
+				runPlanCase(tr, pc)
+				nCwd++
+			}
+			cases = append(cases, cw...)
+			must(os.Chdir(wd))
+		}
+	}
 	for _, pc := range cases {
 		if pc.Family == "rand" || pc.ID%97 == 0 {
 			tr.Index(pc.ID, M{"pk": pc.Pk, "umask": pc.Umask, "noglob": pc.NoGlob, "pmt": pc.Pmt, "tree": pc.TreeID, "entries": entriesM(pc.Entries), "fam": pc.Family})
 		}
 	}
 	return M{"cases": len(cases), "exhaustive_lists": nExh, "exhaustive_triples": nExh3, "spellings": nSpell, "globshapes": nGlobx, "fsowned": nFs, "case_pairs": nCase, "validate_lists": nVal, "via_config": int(atomic.LoadInt64(&nViaConfig)), "random": nRand,
-		"options": len(opts), "maxlen": maxLen}
+		"options": len(opts), "maxlen": maxLen, "cwd_relative": nCwd}
 }
 
 // ---------------------------------------------------------------------------
